@@ -36,7 +36,8 @@ func (P *Program) intrinsicFor(fn *ssa.Function) intrinsicFn {
 	if !ok {
 		// prefix rules
 		switch {
-		case strings.HasPrefix(name, "github.com/whatap/golib/zzvf.") && !strings.HasPrefix(fn.Name(), "init"):
+		case strings.HasPrefix(name, "github.com/whatap/golib/zzvf.") && !strings.HasPrefix(fn.Name(), "init") && strings.HasSuffix(P.fset.Position(fn.Pos()).Filename, "/vf.go"):
+			// (functions of the other zzvf files — environment models — are ordinary Go code and are executed)
 			h = func(ex *Exec, fn *ssa.Function, args []Value, site token.Pos) Value {
 				ex.unsupported("zzvf function %s not implemented in executor", fn.Name())
 				return nil
@@ -380,6 +381,12 @@ func init() {
 			}
 			return ex.tc.Const(64, math.Float64bits(math.Pow(f64(x.val), f64(y.val))))
 		},
+		"math.archMax": func(ex *Exec, fn *ssa.Function, a []Value, site token.Pos) Value {
+			return ex.callFunction(fn.Pkg.Func("max"), a, nil, site) // the portable Go implementation
+		},
+		"math.archMin": func(ex *Exec, fn *ssa.Function, a []Value, site token.Pos) Value {
+			return ex.callFunction(fn.Pkg.Func("min"), a, nil, site)
+		},
 		"math.IsNaN": func(ex *Exec, fn *ssa.Function, a []Value, site token.Pos) Value { return ex.tc.FIsNaN(a[0].(*Term)) },
 
 		// ---- sync (ghost) ----
@@ -703,8 +710,23 @@ func (ex *Exec) symFormat(name, format string, argv SliceV) (*StrV, bool) {
 		if !ok {
 			return nil, false
 		}
-		s, ok := iv.v.(*StrV)
-		return s, ok
+		if s, ok := iv.v.(*StrV); ok {
+			return s, true
+		}
+		// error / Stringer operands: fmt prints Error() / String(); run the method symbolically
+		if iv.t != nil && iv.t != rtErrType {
+			for _, mname := range []string{"Error", "String"} {
+				if m := ex.findMethod(iv.t, mname); m != nil && m.Signature.Params().Len() == 0 && m.Signature.Results().Len() == 1 {
+					if b, ok := m.Signature.Results().At(0).Type().Underlying().(*types.Basic); ok && b.Kind() == types.String {
+						if r, ok := ex.callFunction(m, []Value{iv.v}, nil, token.NoPos).(*StrV); ok && !strings.Contains(r.s, opaqueMark) {
+							return r, true
+						}
+						return nil, false
+					}
+				}
+			}
+		}
+		return nil, false
 	}
 	var out []*Term
 	switch name {
@@ -761,6 +783,25 @@ func (ex *Exec) symFormat(name, format string, argv SliceV) (*StrV, bool) {
 				return nil, false
 			}
 		}
+		return ex.mkStr(out), true
+	case "Sprintln":
+		for i := 0; i < argv.len; i++ {
+			if i > 0 {
+				out = append(out, ex.tc.Const(8, ' '))
+			}
+			if s, ok := strArg(i); ok {
+				out = append(out, ex.strBytes(s)...)
+				continue
+			}
+			nv, ok := ex.toNative(ex.sliceGet(argv, i))
+			if !ok {
+				return nil, false
+			}
+			for _, c := range []byte(fmt.Sprint(nv)) {
+				out = append(out, ex.tc.Const(8, uint64(c)))
+			}
+		}
+		out = append(out, ex.tc.Const(8, '\n'))
 		return ex.mkStr(out), true
 	case "Sprint":
 		for i := 0; i < argv.len; i++ {
